@@ -115,6 +115,18 @@ theorem unknown_cli_option_fails (args : List String) (file : String → Option 
     ∃ e', parseOptions optionDecls cliGroups cfgGroups optionAliases args file = .error e' := by
   exact ⟨e, parseOptions_cli_error h⟩
 
+/-- a leading token that belongs to no option (it does not start with a dash) stops `parse` with an error,
+    whatever follows it: no positional arguments are defined (`no_positional` in the generated skeleton) -/
+theorem leading_stray_token_fails (t : String) (rest : List String) (file : String → Option (List String))
+    (h1 : t.startsWith "--" = false) (h2 : (t.startsWith "-" && decide (t.length > 1)) = false) :
+    parseOptions optionDecls cliGroups cfgGroups optionAliases (t :: rest) file = .error .tooManyPositional := by
+  have h : parseCLI (described optionDecls cliGroups) (t :: rest) = .error .tooManyPositional := by
+    simp [parseCLI, parseCLIAux, h1, h2]
+  exact parseOptions_cli_error h
+
+example : ("stray".startsWith "--" = false) ∧ (("stray".startsWith "-" && decide ("stray".length > 1)) = false) := by
+  decide +kernel
+
 theorem malformed_value_fails (desc : List OptSpec) (p : Parsed) (vm : VM) (final : List String)
     (k : String) (vals : List String) (o : OptSpec) (hk : (k, vals) ∈ p) (hf : final.contains k = false)
     (ho : findOpt desc k = some o) (hbad : vals.all (wellFormed o.ty) = false)
